@@ -269,6 +269,89 @@ func jsonStructFields(fr *frame, st *types.Struct, sv structure, addressable boo
 	}
 }
 
+// indentRope is encoding/json.Indent over a rope of compact JSON: literal pieces are scanned byte by
+// byte, symbolic atoms (numbers, or pieces of string literals) are copied through as non-structural content.
+func indentRope(r symStr, prefix, indent string) value {
+	var acc value = ""
+	var lit []byte
+	flush := func() {
+		if len(lit) > 0 {
+			acc = concatStr(acc, string(lit))
+			lit = lit[:0]
+		}
+	}
+	depth := 0
+	needIndent, inStr, esc := false, false, false
+	newline := func() {
+		lit = append(lit, '\n')
+		lit = append(lit, prefix...)
+		for k := 0; k < depth; k++ {
+			lit = append(lit, indent...)
+		}
+	}
+	content := func() {
+		if needIndent {
+			needIndent = false
+			depth++
+			newline()
+		}
+	}
+	for _, p := range r.parts {
+		if p.atom != nil {
+			if !inStr {
+				content()
+			}
+			flush()
+			acc = concatStr(acc, symStr{[]strPart{p}})
+			continue
+		}
+		for k := 0; k < len(p.lit); k++ {
+			c := p.lit[k]
+			if inStr {
+				lit = append(lit, c)
+				if esc {
+					esc = false
+				} else if c == '\\' {
+					esc = true
+				} else if c == '"' {
+					inStr = false
+				}
+				continue
+			}
+			switch c {
+			case ' ', '\t', '\r', '\n':
+				continue
+			case '}', ']':
+				if needIndent {
+					needIndent = false // empty object / array
+				} else {
+					depth--
+					newline()
+				}
+				lit = append(lit, c)
+			case '{', '[':
+				content()
+				lit = append(lit, c)
+				needIndent = true
+			case ',':
+				lit = append(lit, c)
+				newline()
+			case ':':
+				lit = append(lit, c, ' ')
+			case '"':
+				content()
+				lit = append(lit, c)
+				inStr = true
+			default:
+				content()
+				lit = append(lit, c)
+			}
+		}
+	}
+	flush()
+	return acc
+}
+
 func init() {
 	I := intrinsics
 	I["encoding/json.Marshal"] = func(fr *frame, a []value) value {
@@ -283,6 +366,9 @@ func init() {
 			if err := json.Indent(&out, []byte(s), fr.i.ex.concStr(a[1]), fr.i.ex.concStr(a[2])); err == nil {
 				return tuple{ropeBytes{out.String()}, nilError()}
 			}
+		}
+		if ss, ok := r.(symStr); ok {
+			return tuple{ropeBytes{indentRope(ss, fr.i.ex.concStr(a[1]), fr.i.ex.concStr(a[2]))}, nilError()}
 		}
 		fr.i.ex.note("json.MarshalIndent of symbolic content: indentation not modelled")
 		return tuple{ropeBytes{r}, nilError()}
